@@ -601,13 +601,17 @@ fn build_debug_expr(
             true => quote!(debug_struct),
             false => quote!(debug_tuple),
         };
-        expr.extend(quote!(f.#debug_x(::core::stringify!(#ident))));
+        // raw identifiers are printed without `r#`, as the standard derive does
+        let name = ident.to_string();
+        let name = name.strip_prefix("r#").unwrap_or(&name);
+        expr.extend(quote!(f.#debug_x(#name)));
         for field in fields {
             if !field.hattrs.is_debug_ignore() {
                 let e = to_expr(field);
-                let member = field.member();
+                let name = field.member().to_string();
+                let name = name.strip_prefix("r#").unwrap_or(&name);
                 expr.extend(match is_named {
-                    true => quote! (.field(::core::stringify!(#member), #e)),
+                    true => quote! (.field(#name, #e)),
                     false => quote! (.field(#e)),
                 });
                 field.push_bounds_to(use_bounds, kind, wcb);
